@@ -46,12 +46,27 @@ MEMBERS = [
     ("en16n", "Enum(Int16un, one=1, big=0x0102)", True, False), ("f32n", "Float32n", True, False), ("ns", "FixedSized(3, NullStripped(GreedyBytes))", True, False), ("varint", "VarInt", True, False), ("hex", "Hex(Int32ub)", True, False),
     ("rest", "GreedyBytes", True, True), ("cstr", "CString('ascii')", True, False), ("pstr", "PaddedString(3, 'ascii')", True, False), ("pas", "PascalString(Byte, 'utf8')", True, False),
     ("seq", "Sequence(Byte, Int16ub)", True, False),
+    # members of a bit region that are exported through a wrapper type (repeaters / conditionals over a one-bit field)
+    ("bitsarr", "BitStruct('v'/Nibble, 'o'/Array(3, Flag), 'w'/Flag)", True, False),
+    ("bitscond", "BitStruct('v'/BitsInteger(3), 'o'/If(this.v == 1, Flag), 'w'/BitsInteger(4), 'z'/If(this.v != 1, Flag))", True, False),
+    ("bitsarr2", "BitStruct('q'/Array(2, Array(2, Flag)), 'r'/Array(3, Padding(1)), 'w'/Flag)", True, False),
 ]
 
 
 # layouts KSY cannot express: the exporter must refuse them ("does not implement KSY export"), not describe something else
 REFUSED = ["PaddedString(8, 'utf16')", "PaddedString(6, 'utf_16_le')", "CString('utf_16_be')", "CString('utf32')", "PaddedString(8, 'utf_32_le')", "NullTerminated(GreedyBytes, term=b'\\r\\n')",
-           "Struct('s'/CString('utf_16_le'), 't'/Byte)", "Array(2, PaddedString(4, 'utf_16_le'))"]
+           "Struct('s'/CString('utf_16_le'), 't'/Byte)", "Array(2, PaddedString(4, 'utf_16_le'))",
+           # `size` counts bytes: a field of n bits inside a bit region has no such description
+           "BitStruct('v'/BitsInteger(4), 'o'/Padded(3, Flag), 'w'/Flag)", "BitStruct('o'/Bytes(8))", "BitStruct('o'/FixedSized(8, BitsInteger(3)))", "Bitwise(Padded(8, Nibble))"]
+
+
+# Structs with anonymous members (signatures, padding): every member keeps its own schema entry, in declaration order
+LAYOUTS = [
+    [(None, "Const(b'\\x89IMG')"), ("width", "Int16ub"), (None, "Padding(2)"), ("height", "Int16ul"), (None, "Const(b'\\r\\n')")],
+    [(None, "Const(b'MZ')"), (None, "Const(7, Byte)"), ("a", "Byte"), (None, "Padding(1)"), (None, "Padding(2)"), ("b", "Int16ub")],
+    [("a", "Byte"), (None, "Byte"), (None, "Int16ub"), ("b", "Byte"), (None, "Bytes(2)")],
+    [(None, "Padding(1)"), ("f", "BitStruct('x'/Nibble, Padding(2), 'y'/Flag, Padding(1))"), (None, "Const(b'!')")],
+]
 
 
 def instances(tier, seed):
@@ -72,6 +87,9 @@ def instances(tier, seed):
     rnd.shuffle(pairs)
     for a, b in (pairs[:90] if tier == "quick" else pairs):
         out.append(dict(name="members %s,%s" % (a, b), params=dict(members=[a, b], n=need([a, b])), expect=["accept"]))
+    for i, lay in enumerate(LAYOUTS):
+        out.append(dict(name="layout %d  %s" % (i, ", ".join("%s/%s" % (a or "-", b) for a, b in lay)[:70]), params=dict(layout=i, members=[], n=0), expect=["accept"]))
+    out.append(dict(name="history  an Enum instance shared by two exported constructs", params=dict(history=1, members=[], n=0), expect=["accept"]))
     for r in REFUSED:
         out.append(dict(name="refused %s" % r, params=dict(refused=r, members=[], n=0)))
     for a, b in (("shared", "sharedbits"), ("sharedbits", "shared"), ("sharedarr", "sharedbits"), ("sharedbits", "sharedarr")):
@@ -147,6 +165,70 @@ def _cp(ch):
     return it[0] if it else ch
 
 
+def _layout(ctx, C, lay):
+    d = mk(C, "Struct(%s)" % ", ".join(("%r/%s" % (a, b)) if a else b for a, b in lay))
+    sizes = [mk(C, b).sizeof() for a, b in lay]
+    gen = C.KsyGen()
+    rexp = api.outcome(d._compileseq, gen)
+    ctx.check("export succeeds for a construct of the exportable fragment (got %s)" % ("ok" if rexp.ok else type(rexp.exc).__name__ + ": " + str(rexp.exc)[:60]), rexp.ok)
+    schema = dict(seq=rexp.value, instances=gen.instances, enums=gen.enums, types=gen.types)
+    ids = [f.get("id") for f in schema["seq"]]
+    ctx.check("the schema has one entry per member, in declaration order, named members under their identifiers (%s)" % ids, ids == [a for a, b in lay])
+    raw = ctx.bytes("data", sum(sizes))
+    r0 = api.outcome(d.parse, raw)
+    if not r0.ok:
+        return "reject"
+    try:
+        fields = ksy.Interp(schema, flt=_flt(ctx, C)).run(list(raw))
+    except ksy.Unsupported as e:
+        ctx.check("the schema can be given a layout: %s" % e, False)
+        return "unsupported"
+    except ksy.KsyError as e:
+        ctx.check("interpreting the schema accepts what the construct accepts (%s)" % e, False)
+        return "ksy-reject"
+    terms, pos = [], 0
+    for (fid, start, end, val), (a, b), sz in zip(fields, lay, sizes):
+        terms.append(("member %d (%s): start offset" % (lay.index((a, b)), a or b), ctx.eq(start, pos)))
+        terms.append(("member %d (%s): end offset" % (lay.index((a, b)), a or b), ctx.eq(end, pos + sz)))
+        pos += sz
+        if a:
+            match(ctx, val, r0.value[a], terms, a)
+    for label, t in terms:
+        ctx.check(label, t)
+    return "accept"
+
+
+def _history(ctx, C):
+    """the schema of a construct does not depend on what was exported before it, even when constructs share sub-objects"""
+    ns = {}
+    kind = mk(C, "Enum(Byte, one=1, two=2)")
+    status = mk(C, "Enum(Byte, ok=0, fail=7, other=9)")
+    first = mk(C, "Struct('kind'/KIND, 'x'/Byte)", {"KIND": kind})
+    second = mk(C, "Struct('status'/STATUS, 'kind'/KIND, 'again'/KIND)", {"KIND": kind, "STATUS": status})
+    api.outcome(first._compileseq, C.KsyGen())
+    api.outcome(first.export_ksy, "first") if hasattr(first, "export_ksy") else None
+    gen = C.KsyGen()
+    rexp = api.outcome(second._compileseq, gen)
+    ctx.check("export succeeds (got %s)" % ("ok" if rexp.ok else type(rexp.exc).__name__), rexp.ok)
+    seq = rexp.value
+    ctx.check("the schema lists the members in declaration order", [f.get("id") for f in seq] == ["status", "kind", "again"])
+    raw = ctx.bytes("data", 3)
+    r0 = api.outcome(second.parse, raw)
+    ctx.check("three bytes parse", r0.ok)
+    for i, (fid, en) in enumerate((("status", status), ("kind", kind), ("again", kind))):
+        tab = gen.enums.get(seq[i].get("enum"))
+        ctx.check("field %s refers to an enumeration table of the schema" % fid, isinstance(tab, dict))
+        want = dict((int(v), str(k)) for k, v in en.encmapping.items())
+        ctx.check("field %s: the table it refers to holds this field's labels (%r, the construct maps %r)" % (fid, tab, want), dict((int(v), str(l)) for v, l in tab.items()) == want)
+        # and the label parse gives for the byte read is the table's label for it
+        b = raw[i]
+        for v, lab in sorted(want.items()):
+            if ctx.fork(ctx.eq(b, v)):
+                ctx.check("field %s: byte %d is labelled %r by parse" % (fid, v, lab), str(r0.value[fid]) == tab.get(v, tab.get(str(v))))
+                break
+    return "accept"
+
+
 def harness(ctx, C, p):
     if "refused" in p:
         d = mk(C, "Struct('n'/Byte, 'm'/%s, 't'/Byte)" % p["refused"])
@@ -154,6 +236,10 @@ def harness(ctx, C, p):
         ctx.check("a layout KSY cannot express is refused with a ConstructError, not exported as something else (got %s)" % ("a schema: %r" % (r.value,) if r.ok else type(r.exc).__name__),
                   (not r.ok) and isinstance(r.exc, C.ConstructError))
         return "refused"
+    if "layout" in p:
+        return _layout(ctx, C, LAYOUTS[p["layout"]])
+    if "history" in p:
+        return _history(ctx, C)
     table = dict((m[0], m) for m in MEMBERS)
     ms = [table[x] for x in p["members"]]
     plain = "Struct('n'/Byte, %s, 't'/Byte)" % ", ".join("%r/%s" % (m[0], m[1]) for m in ms)
